@@ -364,8 +364,6 @@ def include_rules(report, p, modname: str, ids, why: str):
         _sub_cache[key] = sub
     sub = _sub_cache[key]
     aborted_at = getattr(sub, "aborted_at", "-")
-    if aborted_at != "-" and (aborted_at is None or aborted_at in ids or not set(ids) <= {r.id for r in sub.rules}):
-        raise AnalysisError(f"shared rule(s) {sorted(ids)} of {modname.upper()} could not be evaluated: {sub.abort_reason}")
     have = {r.id for r in report.rules}
     for rr in sub.rules:
         if rr.id in ids and rr.id not in have:
@@ -374,6 +372,9 @@ def include_rules(report, p, modname: str, ids, why: str):
             r2 = copy.copy(rr)
             r2.notes = list(rr.notes) + [f"shared rule of {modname.upper()} included because {why}"]
             report.rules.append(r2)
+    # (the rules are adopted first: a violation that a shared rule established before it gave up is still reported by the caller)
+    if aborted_at != "-" and (aborted_at is None or aborted_at in ids or not set(ids) <= {r.id for r in sub.rules}):
+        raise AnalysisError(f"shared rule(s) {sorted(ids)} of {modname.upper()} could not be evaluated: {sub.abort_reason}")
     missing = set(ids) - {r.id for r in sub.rules}
     if missing:
         raise AnalysisError(f"shared rules {sorted(missing)} not produced by {modname}")
